@@ -897,3 +897,41 @@ Lemma ex_roundtrip :
   /\ parse_stream fixed 200 true (ser_stream ex_ctx [(ex_ent, 7%N)] "MQ==")
   = ([clean_ent ex_ent; cont_ent "MQ=="], OOk, ex_ctx).
 Proof. vm_compute. split; reflexivity. Qed.
+
+(** ** prefixes that merely begin with "http" are CURIE prefixes, not URLs *)
+Ltac dec_step :=
+  match goal with
+  | |- context [ascii_dec ?a ?b] => destruct (ascii_dec a b) as [?E|?E]; [try discriminate E; try subst|]
+  end.
+
+Lemma curie_not_url p l : split_colon p = None -> p <> "http" -> p <> "https" ->
+  is_url (p ++ String ":" l) = false.
+Proof.
+  intros Hc H1 H2. unfold is_url.
+  destruct p as [|c1 [|c2 [|c3 [|c4 [|c5 [|c6 p]]]]]]; cbn [append prefix];
+    repeat dec_step; cbn [orb]; try reflexivity;
+    try (exfalso; apply H1; reflexivity); try (exfalso; apply H2; reflexivity);
+    try (cbn in Hc; discriminate Hc).
+Qed.
+
+Theorem resolve_http_like_prefix ns p l : split_colon p = None -> p <> "http" -> p <> "https" ->
+  resolve ns (p ++ String ":" l) = match ns_get ns p with Some e => Some (NQ e l) | None => None end.
+Proof.
+  intros Hc H1 H2. unfold resolve. rewrite curie_nonempty.
+  pose proof (curie_not_url p l Hc H1 H2) as U. unfold is_url in U. rewrite U.
+  rewrite split_colon_app' by exact Hc. reflexivity.
+Qed.
+
+(** ** the key cache is transparent *)
+Theorem cache_transparent ns c k : cache_ok ns c ->
+  fst (resolve_cached ns c k) = resolve ns k /\ cache_ok ns (snd (resolve_cached ns c k)).
+Proof.
+  intros Hok. unfold resolve_cached.
+  destruct (lookup k c) as [q|] eqn:E.
+  - split; [cbn; symmetry; now apply Hok | exact Hok].
+  - destruct (resolve ns k) as [q|] eqn:R; cbn [fst snd]; (split; [reflexivity|]); [|exact Hok].
+    intros k' q' H. cbn [lookup] in H. destruct (String.eqb k' k) eqn:Ek.
+    + apply String.eqb_eq in Ek. subst. now injection H as <-.
+    + now apply Hok.
+Qed.
+Lemma cache_ok_nil ns : cache_ok ns []. Proof. intros k q H. discriminate. Qed.
